@@ -185,6 +185,18 @@ func main() {
 			emit(w, o, id, "catalogue", cc.c)
 		}
 	}
+	nf := o.Count(150, 3000)
+	if o.N > 0 {
+		nf = o.N / 6
+	}
+	for i := 0; i < nf; i++ {
+		id := fmt.Sprintf("fun/%d", i)
+		if !o.Want(id) {
+			continue
+		}
+		op, arg, m := msgx.GenFun(hx.NewRNG(o.Seed, id))
+		w.Emit("helper", hx.Case{ID: id, Coq: msgx.RunFun(op, arg, m), Desc: map[string]any{"kind": "helper", "op": op, "arg": arg}, FKey: "helper"})
+	}
 	n := o.Count(900, 15000)
 	for i := 0; i < n; i++ {
 		id := fmt.Sprintf("rnd/%d", i)
